@@ -106,12 +106,14 @@ def section0():
     metas = glob.glob(os.path.join(ROOT, "seeded", "C*", "m*", "meta.json"))
     ncaught = sum(1 for m in metas if json.load(open(m)).get("check_result") == "caught")
     nhist = sum(1 for m in metas if json.load(open(m)).get("history"))
+    nneut = sum(1 for m in metas if json.load(open(m)).get("check_result") == "neutralised")
     ntr = len(glob.glob(os.path.join(ROOT, "translator*")))
     return ("* **Numbers (generated).** %d lines of Coq in `coq/`, %d property theorems in the twenty `Props.v` files; %d translators; "
             "%d genuine defects of the library repaired by `fix:` commits in `/repo`, %d recorded as known findings; "
             "%d independently written breaking changes confirmed and kept under `seeded/`, %d of them reported as VIOLATION by the current "
-            "checks (%d of those only after the check had been strengthened because it first missed the change)."
-            % (nlines, nth, ntr, nfix, nfind, len(metas), ncaught, nhist))
+            "checks (%d of those only after the check had been strengthened because it first missed the change); %d no longer break the "
+            "property since a later repair of the library (their own demonstration passes with the change applied)."
+            % (nlines, nth, ntr, nfix, nfind, len(metas), ncaught, nhist, nneut))
 
 
 def section31():
